@@ -215,3 +215,7 @@ mut("c20g-delete-clears-linked", "C20", T, "                        self.add_cha
 mut("c17d-index-to-ptr-counts-tombstones", "C17", "yrs/src/branch.rs", "            let content_len = item.content_len(encoding);\n            if !item.is_deleted() && item.is_countable() {\n                if index == content_len {",
     "            let content_len = item.content_len(encoding);\n            if item.is_countable() {\n                if index == content_len {", "C17.d", also=["C03"])
 mut("c17d-block-iter-forward-counts-tombstones", "C17", "yrs/src/block_iter.rs", None, None, "C17.d")
+mut("c09ds-writer-cur-not-advanced", "C09", "yrs/src/updates/encoder.rs", "        self.buf.write_var(len - 1);\n        self.ds_curr_val += len;", "        self.buf.write_var(len - 1);\n        self.ds_curr_val += len - 1;", "C09.packed")
+mut("c09ds-reader-returns-cur", "C09", "yrs/src/updates/decoder.rs", "            .checked_add(diff)\n            .ok_or(Error::UnexpectedValue)?;\n        Ok(diff)", "            .checked_add(diff)\n            .ok_or(Error::UnexpectedValue)?;\n        Ok(self.ds_curr_val)", "C09.packed")
+mut("c09ds-benign-named-sum", "C09", "yrs/src/updates/decoder.rs", "        self.ds_curr_val = self\n            .ds_curr_val\n            .checked_add(diff)\n            .ok_or(Error::UnexpectedValue)?;\n        Ok(diff)",
+    "        let next = self.ds_curr_val.checked_add(diff).ok_or(Error::UnexpectedValue)?;\n        self.ds_curr_val = next;\n        Ok(diff)", "", kind="benign", also=["C10"])
